@@ -48,6 +48,9 @@ STATEMENT_STATUS = {
     "C01_bufsize_indep / C01_offset_indep / C01_offset_indep_ws": "proved, FULL (every byte string, conformant or damaged, "
         "odd hex included): the objects read do not depend on the read-buffer size, nor on a token-free prefix (white "
         "space of every SPC byte, complete comments) in front; checked on the implementation for damaged spellings too",
+    "C01_context_indep": "proved, full for the tokens: behind a spelled value any white-space/delimiter byte but '>' and then "
+                         "ARBITRARY bytes - the token values are ser(value) followed by those of the tail read alone; checked "
+                         "on the real tokenizer (reader:context)",
     "C01_concat_feed": "proved: when a ends in a complete token the stack parser fed with the tokens of a ++ ws ++ b is in "
                        "the state reached by feeding the tokens of a, then those of b (uses C14_compositional)",
     "C01_int_token / C01_name_token / C01_string_token (+_eof, _buffered)": "proved: every token-level spelling lexes to "
@@ -777,6 +780,8 @@ def _run(ctx: C.Ctx) -> None:
             check_mutant(ctx, batch, make_case(rng, value, feats, "stream"), rng)
         if i % 10 == 0:
             check_stream_object(ctx, batch, rng)
+        if i % 5 == 0:
+            check_context(ctx, make_case(rng, value, feats, "stream"), rng)
         if i % 3 == 0:
             check_sequence(ctx, batch, rng, seen)
         if i % 12 == 0:
@@ -784,6 +789,24 @@ def _run(ctx: C.Ctx) -> None:
         if len(batch.req) > 100000:
             batch.flush()
     batch.flush()
+
+
+def check_context(ctx: C.Ctx, case: Case, rng) -> None:
+    """C01_context_indep on the real tokenizer: behind a conformant spelling, any white-space / delimiter byte but `>`
+    and then ARBITRARY bytes - the token values are those of the spelling followed by those of the tail alone."""
+    def values(line: str) -> List[str]:
+        return [w.split(":", 1)[1] for w in line.split(" ") if w != "$" and not w.startswith("!")]
+    sp = case.spelling
+    d = bytes([rng.choice(b"\x00\t\n\x0c\r ()<[]{}/%")])
+    tail = d + bytes(rng.choice(b"()<>[]{}/%#\\ \r\n\x0001a.RtrueG\xff") for _ in range(rng.randint(0, 12)))
+    whole = LEX.impl_lex(sp + tail, rng.choice([1, 2, 3, 7, 4096]))
+    ctx.case((sp, "context", tail), True, branch="reader:context")
+    if whole.rsplit(" ", 1)[-1].startswith("!"):
+        ctx.branch("context:exception")
+        return
+    parts = values(LEX.impl_lex(sp, 4096)) + values(LEX.impl_lex(tail, 4096))
+    if parts != values(whole):
+        ctx.disagree("impl.context", {"spelling": sp.hex(), "tail": tail.hex()}, " ".join(values(whole)), " ".join(parts))
 
 
 def check_stream_object(ctx: C.Ctx, batch: Batch, rng) -> None:
